@@ -2,9 +2,10 @@ use crate::core::driver::Prop;
 
 pub mod c09;
 pub mod c10;
+pub mod c11;
 
 pub fn all() -> Vec<Box<dyn Prop>> {
-    vec![Box::new(c09::C09), Box::new(c10::C10)]
+    vec![Box::new(c09::C09), Box::new(c10::C10), Box::new(c11::C11)]
 }
 
 /// Developer utilities (`verif dbg <what> ...`).
@@ -31,6 +32,11 @@ pub fn debug_cmd(args: &[String]) {
             rec(&db, root, 0);
             println!("{}", diags.format(&db));
         }
-        _ => eprintln!("dbg: tree <text>"),
+        Some("fmt") => {
+            let v: serde_json::Value = serde_json::from_str(&std::fs::read_to_string(&args[1]).unwrap()).unwrap();
+            let art = v.get("artefact").cloned().unwrap_or(v);
+            c11::debug_fmt(&art);
+        }
+        _ => eprintln!("dbg: tree <text> | fmt <artefact.json>"),
     }
 }
